@@ -32,7 +32,7 @@ import (
 var c16Alpha = []string{"a", "1", "_", "=", "!", "~", `"`, `\`, ",", "{", "}", " ", "\n", "n", "é", "😀", "\x80"}
 
 // second alphabet: the remaining reserved characters and white space beyond ASCII space / newline
-var c16Extra = []string{"\t", "\u00a0", "\u2003", "\u0085", "'", "`"}
+var c16Extra = []string{"\t", "\u00a0", "\u2003", "\u0085", "'", "`", "\ufffd"} // U+FFFD itself is valid UTF-8 (and what utf8.DecodeRune answers for garbage)
 
 var c16Progress atomic.Int64
 
@@ -342,7 +342,7 @@ func TestVerifC16(t *testing.T) {
 			return true
 		})
 		R.Exhaustive = !timedOut
-		R.Bound = fmt.Sprintf("all strings of <= %d symbols over a %d-symbol alphabet (letters, digit, _, = ! ~ \" \\ , { } space newline, 2- and 4-byte runes, an invalid byte) and all strings of <= %d symbols over that alphabet plus tab, U+00A0, U+2003, U+0085, ' and backtick", maxLen, len(c16Alpha), maxLen-1)
+		R.Bound = fmt.Sprintf("all strings of <= %d symbols over a %d-symbol alphabet (letters, digit, _, = ! ~ \" \\ , { } space newline, 2- and 4-byte runes, an invalid byte) and all strings of <= %d symbols over that alphabet plus tab, U+00A0, U+2003, U+0085, U+FFFD, ' and backtick", maxLen, len(c16Alpha), maxLen-1)
 		R.Extra["family"] = outcomes
 		R.Sample(map[string]any{"outcome_classes": outcomes})
 		R.Write()
@@ -435,7 +435,7 @@ func TestVerifC16(t *testing.T) {
 		R := rep.New("C16", "roundtrip")
 		valid := c16Alpha[:len(c16Alpha)-1]
 		// values also run over the control characters a printer might decide to escape (only \n, \" and \\ are)
-		valuesAlpha := append(append([]string{}, valid...), "\r", "\t", "\v")
+		valuesAlpha := append(append([]string{}, valid...), "\r", "\t", "\v", "\ufffd")
 		maxN, maxV := 2, 3
 		if rep.Thorough() {
 			maxN, maxV = 2, 4
